@@ -40,6 +40,51 @@ Proof.
   split; [intros [H1 H2]; subst; reflexivity|intros H; inversion H; auto].
 Qed.
 
+Lemma existsb_ins : forall (p : fd -> bool) f l w, existsb p (ins f l ++ w) = true -> p f = true \/ existsb p (l ++ w) = true.
+Proof.
+  intros p f l w H. unfold ins in H. destruct (mem f l); [right; exact H|].
+  rewrite <- app_assoc in H. rewrite existsb_app in H. rewrite existsb_app.
+  apply orb_true_iff in H as [H|H]; [right; rewrite H; reflexivity|].
+  simpl in H. apply orb_true_iff in H as [H|H]; [left; exact H|right; rewrite H; apply orb_true_r].
+Qed.
+
+Lemma existsb_del : forall (p : fd -> bool) f l, existsb p (del f l) = true -> existsb p l = true.
+Proof.
+  intros p f l. induction l as [|x l IH]; simpl; intros H; [discriminate|].
+  destruct (f =? x); [rewrite IH by exact H; apply orb_true_r|].
+  simpl in H. apply orb_true_iff in H as [H|H]; [rewrite H; reflexivity|rewrite IH by exact H; apply orb_true_r].
+Qed.
+
+Lemma existsb_del_app : forall (p : fd -> bool) f l w, existsb p (del f l ++ w) = true -> existsb p (l ++ w) = true.
+Proof.
+  intros p f l w H. rewrite existsb_app in *. apply orb_true_iff in H as [H|H];
+    [rewrite (existsb_del p f l H); reflexivity|rewrite H; apply orb_true_r].
+Qed.
+
+Lemma existsb_ins_r : forall (p : fd -> bool) f l w, existsb p (l ++ ins f w) = true -> p f = true \/ existsb p (l ++ w) = true.
+Proof.
+  intros p f l w H. rewrite existsb_app in *. apply orb_true_iff in H as [H|H]; [right; rewrite H; reflexivity|].
+  rewrite <- (app_nil_r (ins f w)) in H. apply existsb_ins in H. rewrite app_nil_r in H.
+  destruct H as [H|H]; [left; exact H|right; rewrite H; apply orb_true_r].
+Qed.
+
+Lemma existsb_del_r : forall (p : fd -> bool) f l w, existsb p (l ++ del f w) = true -> existsb p (l ++ w) = true.
+Proof.
+  intros p f l w H. rewrite existsb_app in *. apply orb_true_iff in H as [H|H]; [rewrite H; reflexivity|].
+  rewrite (existsb_del p f w H). apply orb_true_r.
+Qed.
+
+Lemma existsb_cons_dead : forall f d l, existsb (fun g => mem g (f :: d)) l = true ->
+  mem f l = true \/ existsb (fun g => mem g d) l = true.
+Proof.
+  intros f d l. induction l as [|x l IH]; simpl; intros H; [discriminate|].
+  apply orb_true_iff in H as [H|H].
+  - apply orb_true_iff in H as [H|H].
+    + left. apply Nat.eqb_eq in H. subst. rewrite Nat.eqb_refl. reflexivity.
+    + right. rewrite H. reflexivity.
+  - destruct (IH H) as [M|M]; [left; rewrite M; apply orb_true_r|right; rewrite M; apply orb_true_r].
+Qed.
+
 (* ---------- classification of program points ---------- *)
 Definition loop_holds p := match p with LStartHeld | LStartNotified | LCloseHeld | LCloseNotified => true | _ => false end.
 Definition closing_pc p := match p with LCloseNotified | LCloseWake | LCloseJoin | LCloseRm | LCloseFin | LClosed => true | _ => false end.
@@ -66,7 +111,11 @@ Record Inv (s : state) : Prop := {
   I_exit : sp s = SExiting \/ sp s = SDone -> closing s = true;
   I_joined : joined_pc (lp s) = true -> sp s = SDone \/ sp s = SNotStarted;
   I_cbs : Forall (fun e => fst (fst e) = TLoop) (cbs s);
-  I_nw0 : mem 0 (writers s) = false
+  I_nw0 : mem 0 (writers s) = false;
+  I_nodead : has_dead s (readers s, writers s) = false;
+  I_dead : forall a, in_flight s = Some a -> has_dead s a = true -> 0 < waker s;
+  I_err : sp s = SErr -> 0 < waker s;
+  I_d0 : mem 0 (dead s) = false
 }.
 
 Lemma inv_init : Inv init.
@@ -107,8 +156,8 @@ Proof.
 Qed.
 
 Ltac start_step s I H :=
-  destruct I as [Ilock Iexcl Itok Iwait Ifresh Iw0 Isnap0 Iclosing Icwaker Ipend Ispawn1 Ispawn2 Iexit Ijoined Icbs Inw0];
-  destruct s as [lp0 sp0 lock0 args0 closing0 readers0 writers0 waker0 pend0 queue0 rdyr0 rdyw0 cbs0];
+  destruct I as [Ilock Iexcl Itok Iwait Ifresh Iw0 Isnap0 Iclosing Icwaker Ipend Ispawn1 Ispawn2 Iexit Ijoined Icbs Inw0 Inodead Idead Ierr Id0];
+  destruct s as [lp0 sp0 lock0 args0 closing0 readers0 writers0 waker0 pend0 queue0 rdyr0 rdyw0 cbs0 dead0];
   unfold tokens, tok_args, tok_sel, tok_loop, in_flight, spawned in *;
   simpl in *.
 
@@ -132,6 +181,7 @@ Proof.
   all: try (destruct lp0; simpl in *; solve_inv).
   all: try (destruct args0 as [[? ?]|]; simpl in *; solve_inv).
   all: try match goal with E : (_, _) = (_, _) |- _ => inversion E; subst; eauto end.
+  all: try (intros _; eapply Idead; [reflexivity|eassumption]).
 Qed.
 
 Lemma mem0_del : forall f l, f <> 0 -> mem 0 (del f l) = mem 0 l.
@@ -146,6 +196,27 @@ Proof. intros l. rewrite mem_ins. reflexivity. Qed.
 Lemma mem0_ins_other : forall f l, f <> 0 -> mem 0 (ins f l) = mem 0 l.
 Proof. intros f l H. rewrite mem_ins. destruct f; [contradiction|reflexivity]. Qed.
 
+Ltac dead_tac :=
+  unfold has_dead in *; simpl in *;
+  first
+  [ match goal with |- existsb ?p ?l = false =>
+      let X := fresh "X" in
+      destruct (existsb p l) eqn:X; [exfalso|reflexivity];
+      first [ apply existsb_ins in X; destruct X as [X|X]; congruence
+            | apply existsb_ins_r in X; destruct X as [X|X]; congruence
+            | apply existsb_del_app in X; congruence
+            | apply existsb_del_r in X; congruence
+            | apply existsb_cons_dead in X; rewrite mem_app in X; destruct X as [X|X]; [|congruence];
+              apply orb_true_iff in X; destruct X; congruence ]
+    end
+  | match goal with Ifr : forall a : snap, _ -> a = _ \/ _ \/ _, Idd : forall a : snap, _ -> _ -> 0 < _ |- forall a : snap, _ =>
+      let a := fresh "a" in let Ha := fresh "Ha" in let Hd := fresh "Hd" in let Q := fresh "Q" in
+      intros a Ha Hd; apply existsb_cons_dead in Hd; destruct Hd as [Hd|Hd]; [|eapply Idd; eassumption];
+      destruct (Ifr a Ha) as [Q|[Q|Q]];
+      [subst a; simpl in Hd; rewrite mem_app in Hd; apply orb_true_iff in Hd; destruct Hd; congruence
+      | exact Q | discriminate]
+    end ].
+
 Lemma inv_loop : forall s l s', Inv s -> step_loop s l = Some s' -> Inv s'.
 Proof.
   intros s l s' I H. start_step s I H.
@@ -155,7 +226,10 @@ Proof.
     fin;
     (constructor; unfold tokens, tok_args, tok_sel, tok_loop, in_flight, spawned, notify; simpl; try rewrite app_length; solve_inv).
   all: try (rewrite ?mem0_del, ?mem0_ins_other by assumption; auto using mem0_ins, mem0_ins0).
+  all: try (solve [dead_tac]).
+  all: try (destruct f; [contradiction|simpl; assumption]).
   all: try (apply Forall_app; split; [assumption|repeat constructor]).
   all: try (destruct sp0; simpl in *; solve_inv).
   all: try (destruct args0 as [[? ?]|]; simpl in *; solve_inv).
+  all: try (intros a Ha Hd; inversion Ha; subst; unfold has_dead in *; simpl in *; congruence).
 Qed.
